@@ -2,7 +2,7 @@
    AST on every run) are the expressions the hand-written model uses.  Every lemma is an obligation of the tie: when an
    expression of the code changes, the generated file changes with it and the lemma stops compiling even if no sampled input
    tells old and new behaviour apart.  Statements: the model's definition equals the translated expression, for all arguments. *)
-From Aldy Require Import Base Consts Lp Enum Exprs_lp TieTac.
+From Aldy Require Import Base Consts Lp Enum Exprs_lp TieTac LpReadbackProofs.
 Import List.
 Open Scope Q_scope.
 
@@ -22,3 +22,9 @@ Proof.
   intros vv. unfold cut_row, lp_cut_rhs, inZ. cbn [r_rhs]. unfold Z.sub. rewrite inject_Z_plus. reflexivity.
 Qed.
 
+
+(* ---- lpinterface.py: CBC.getValue / is_binary: an integral variable is read as a binary when
+        abs(var.lb()) < SOLUTION_PRECISION and abs(1 - var.ub()) < SOLUTION_PRECISION  (translator also pins: the branch returns
+        `x > 0`, the other two return x, and is_binary is `isinstance(getValue(v), bool)`) *)
+Lemma lp_reads_binary_tied : forall prec lb ub, reads_binary prec lb ub = lp_reads_binary lb ub prec.
+Proof. first [reflexivity | intros; unfold reads_binary, lp_reads_binary; tie_sem]. Qed.
